@@ -97,9 +97,13 @@ def run_models(ctx: Ctx):
         while any(len(set(v.tolist())) < N for v in xs.values()):      # samples are told apart by their inputs in the call log
             xs = {f'x{i}': np.array([round(rng.random(), 6) + 0.0001 * s for s in range(N)]) for i in range(size)}
         maxit = rng.choice([0, 1, 2, 3, 3, 30, 100]); amem = rng.choice([1, 2, 10])
+        detached = n % 4 == 2      # every fourth system runs without a logger (system.logger = None): what is returned may not depend on it
+        if detached:
+            system.logger = None
+            maxit = min(maxit, 3)
         case = {'system': n, 'size': size, 'nonlinear': nonlinear, 'A': [[str(v) for v in r] for r in spec['A']], 'b': [str(v) for v in spec['b']],
                 'c': [str(v) for v in spec['c']], 'extra': spec['extra'], 'x': {k: v.tolist() for k, v in xs.items()},
-                'max_fpi_iter': maxit, 'anderson_mem': amem}
+                'max_fpi_iter': maxit, 'anderson_mem': amem, 'logger_detached': detached}
         log.clear()
         try:
             y = system.predict(xs, use_model='best', max_fpi_iter=maxit, anderson_mem=amem, fpi_tol=FTOL)
